@@ -255,6 +255,11 @@ class RefDC:
         elif mask & 2:
             entry["kind"] = "public"
             pub = gkdi.group_public_key(rk.hash_name, chain.l2_seed(pos[1], pos[2]), rk.secret_alg, rk.eff_secret_params, rk.private_key_length)
+            if rk.secret_alg == "DH" and self.byz.get("dh_pub_key_length"):
+                # the same public value in a key blob whose fixed-width fields are padded wider than those of the group's
+                # msKds-SecretAgreementParam (two encodings of one group; the key blob's width sizes the shared secret)
+                _kl, p_, g_, y_ = gkdi.unpack_dh_key(pub)
+                pub = gkdi.pack_dh_key(int(self.byz["dh_pub_key_length"]), p_, g_, y_)
             env = dict(base, flags=3, l1_key=b"", l2_key=pub)
         else:
             entry["denied"] = "access"
